@@ -129,7 +129,25 @@ func verifH_C18_ast() {
 			EvaluateInsert(verifInsertStmt("t", []string{"a"}, [][]interface{}{{anyLit("v1"), anyLit("v2")}, {}}), rm)
 		}
 	default:
-		switch verifChoice("case", 6) {
+		switch verifChoice("case", 7) {
+		case 6:
+			// joins of tables of different widths in both orders, every join type,
+			// projecting the last column of each side (unmatched rows get NULL padding)
+			l, r := "t", "u"
+			if verifChoice("order", 2) == 1 {
+				l, r = "u", "t"
+			}
+			lastCol := map[string]string{"t": "f", "u": "z"}
+			j := sql.QualifiedJoin{LHS: sql.TableName{Name: l}, JoinType: verifJoinTypes[verifChoice("jt", 3)], RHS: sql.TableName{Name: r},
+				JoinCondition: sql.Predicate{ComparisonPredicate: sql.ComparisonPredicate{LHS: sql.ColumnReference{Qualifier: l, ColumnName: "a"}, CompOp: sql.EQ, RHS: sql.ColumnReference{Qualifier: r, ColumnName: "a"}}}}
+			q := sql.Select{SelectList: sql.SelectList{
+				{ValueExpressionPrimary: sql.ColumnReference{Qualifier: l, ColumnName: lastCol[l]}},
+				{ValueExpressionPrimary: sql.ColumnReference{Qualifier: r, ColumnName: lastCol[r]}}},
+				TableExpression: sql.TableExpression{FromClause: sql.FromClause{j}}}
+			if verifChoice("orderby", 2) == 1 {
+				q.SortSpecificationList = []sql.SortSpecification{{SortKey: sql.ColumnReference{Qualifier: r, ColumnName: lastCol[r]}, OrderingSpecification: sql.Token{Type: sql.ASC}}}
+			}
+			EvaluateSelect(q, rm)
 		case 0:
 			EvaluateSelect(sql.Select{SelectList: star, TableExpression: sql.TableExpression{FromClause: sql.FromClause{sql.TableName{Name: "nosuch"}}}}, rm)
 		case 1:
